@@ -77,6 +77,7 @@ Section Stale.
         (split; [assumption | split; [intros s' [X|X]; [discriminate X | exact (N2 s' X)] | exact N3]]).
     - (* WDropAck *) des S; inv_some S; nfsolve H.
     - (* WDropCrash *) des S; inv_some S; nfsolve H.
+    - (* ONext *) des S; inv_some S; nfsolve H.
   Qed.
 
   Lemma NF_init : NF pinit.
@@ -125,7 +126,7 @@ Section Stale.
     o st' = fold_left (fun a s => add_done s a) (polled_dones taken) (o st) /\
     (forall w, same_but_resq (ws st' w) (ws st w)) /\
     sc st' = sc st /\ tasks st' = tasks st /\ flight st' = flight st /\ sent st' = sent st /\ replies st' = replies st /\
-    dropfail st' = dropfail st.
+    dropfail st' = dropfail st /\ undelivered st' = undelivered st.
   Proof.
     intros st taken st' S. cbn in S. destruct (pc st) eqn:Epc; try discriminate S. destruct (nth_error p i); [|discriminate S].
     destruct (_ && _ && _ && _); [|discriminate S]. destruct (poll (ws st) (o st) taken) as [[f a']|] eqn:P; [|discriminate S].
